@@ -1314,6 +1314,9 @@ class Evaluator:
                     recv = self.eval(base, st)
                     if recv[0] not in ("const", "global", "unknown"):
                         return owners[0].methods[f.attr], owners[0].name, recv, "objmethod"
+                    if recv[0] == "global" and "." in recv[1] and recv[1].split(".")[0] == owners[0].name:
+                        # <EnumClass>.<MEMBER>.method(): the member is the receiver
+                        return owners[0].methods[f.attr], owners[0].name, recv, "objmethod"
         if isinstance(f, ast.Name) and f.id not in st.env and f.id not in self.opaque_methods:
             fn = self._module_function(f.id)
             if fn is not None:
@@ -1395,6 +1398,12 @@ class Evaluator:
             if v is not None:
                 return v
         return ("attr", base, name)
+
+    def _is_enum(self, cname: str) -> bool:
+        try:
+            return self.repo.has_class(cname) and any(b.split(".")[-1] in ("Enum", "IntEnum", "Flag") for b in self.repo.cls(cname).bases)
+        except Exception:
+            return False
 
     def _property_value(self, name: str, st: State) -> Optional[Term]:
         """self.NAME where NAME is a read-only @property of the class under evaluation with a single outcome."""
@@ -1869,6 +1878,11 @@ class Evaluator:
                 r = self._isnone(a, st)
                 if r is not None:
                     t = const(r if t[1] in ("is", "==") else not r)
+            elif t[1] in ("is", "isnot", "==", "!=") and a[0] == "global" and b[0] == "global" and "." in a[1] and "." in b[1] \
+                    and a[1].split(".")[0] == b[1].split(".")[0] and self._is_enum(a[1].split(".")[0]):
+                # two members of one Enum: the same member or different ones
+                r = a[1] == b[1]
+                t = const(r if t[1] in ("is", "==") else not r)
         elif k == "binop":
             a, b = t[2], t[3]
             if is_const(a) and is_const(b):
